@@ -322,6 +322,7 @@ int main (int argc, char **argv)
 	if (! outf) { perror (outpath) ; return 70 ; }
 	snprintf (errpath, sizeof (errpath), "%s.err", outpath ? outpath : "/dev/null") ;
 
+	int ncrashed = 0 ;
 	for (int attempt = 0 ; attempt < 100000 ; attempt ++)
 	{	pid_t pid ; int status = 0 ;
 		fflush (outf) ;
@@ -371,6 +372,12 @@ int main (int argc, char **argv)
 				}
 			sh->evals ++ ;
 			resume_from = idx + 1 ;
+			/* every case that kills its process costs a restart (the harness rebuilds its inputs): a tree on which cases die by the
+			** thousand must still give its verdict in bounded time. The violations are recorded; the rest of this shard is given up. */
+			if (++ ncrashed >= 25)
+			{	vl_not_exhaustive ("25 cases of this shard crashed or hung: enumeration of the shard stopped (violations recorded)") ; break ; }
+			if (vl_deadline_passed ())
+			{	vl_not_exhaustive ("global deadline reached after a crashed case") ; break ; }
 			}
 		}
 	write_summary (t0) ;
